@@ -103,6 +103,11 @@ CHECKS = {
             'Configurations cover overwrite, overwrite_part, rm_part_on_exc, text_mode, file_perms (None/600/640/444/000/755), process umask (5 values, set in the child), destination absent/present with a mode, foreign pre-existing part file, bodies that return, raise after k writes, write nothing, or let the destination appear mid-way (race for overwrite=False), and both API forms. The save runs once under the interposition layer; then an OSError (ENOSPC, EIO, EPERM, EACCES, EEXIST, EDQUOT) replaces the call at every faultable event - part-file creation, chmod, write, flush, fsync, close, link/rename - one run per event (exhaustive for the trace), and for half of the configurations one run per ordered pair of events of the faulted trace (second fault may hit the cleanup unlink). Not completed: the caller must see an exception, destination bytes and st_mode are unchanged (or those of the racing writer), no part file of this attempt remains with rm_part_on_exc, a foreign part file is untouched unless overwrite_part, and an immediate fault-free retry succeeds. Completed: new content, mode = file_perms / replaced file / 0666 & ~umask, no part file. ~900 configurations / ~12 000 fault runs in quick.',
             'Faults replace the whole call (close closes, then raises); partial kernel effects and three or more simultaneous faults are out of scope; runs as root, so permission bits are compared, not enforced.',
             'DESIGN.md section 2, C05'),
+    'C03': ('exploration',
+            'schedule-controlled concurrency testing: Hypothesis-generated thread programs; the harness owns the schedule through per-opcode tracing of boltons/cacheutils.py and a cooperative lock; all single pre-emption points enumerated, generated double/triple pre-emptions; linearizability oracle against the C02 reference cache',
+            '2-3 real threads run generated programs of 1-3 cache operations on a shared LRI/LRU, but only the thread holding the turn runs: each worker traces itself (sys.settrace with f_trace_opcodes for frames of cacheutils.py), so the harness is called before every bytecode instruction and can hand the turn to another thread there; cacheutils.RLock is replaced by a re-entrant lock that yields the turn to its owner instead of blocking (so a missing `with self._lock` makes the interleaving effective and a held lock makes it a no-op). For every program every single pre-emption point (opcode index x every still-unfinished other thread) is enumerated, plus generated 2- and 3-pre-emption schedules: ~65 000 schedules for 256 programs in quick. After each schedule: no deadlock, every operation completed, len <= max_size, final contents and black-box eviction order obtained, and a DFS over all interleavings of the programs on the reference model must find one reproducing every return value / exception type, the final contents and the final eviction order; the cache must remain usable.',
+            'CPython GIL semantics (pre-emption only between bytecodes of cacheutils.py; C-level dict operations atomic); <=3 pre-emptions and <=3x3 operations; counters not compared; relies on sys.settrace opcode events and on the module-level RLock name.',
+            'DESIGN.md section 2, C03'),
 }
 
 NOT_YET = 'check not built yet in this revision of /verif (work in progress; see DESIGN.md section 8)'
